@@ -8,7 +8,7 @@
    split_string / quote_join = Model/C11sh.v : shlex.split / shlex.join                              *)
 From Coq Require Import Ascii String Bool List.
 From CBI Require Import Lib.C11_types Gen.C11_tables Model.C11 Model.C11sh Spec.C11 Spec.C11safe Spec.C11safe_more
-                        Proofs.C11 Proofs.C11sh.
+                        Proofs.C11 Proofs.C11exit Proofs.C11sh.
 Import ListNotations.
 Local Open Scope string_scope.
 
@@ -80,6 +80,14 @@ Print Assumptions C11_unsafe_refuted_missing_value.
 Theorem C11_argument_error_contained : forall argv : list string, parse_args argv <> RRaise.
 Proof. exact never_raises. Qed.
 Print Assumptions C11_argument_error_contained.
+
+(* FULL (all argument vectors, no [safe]): unless the literal argument "-i" occurs - the one abbreviation that is
+   ambiguous between -isystem and -include, see C11_unsafe_refuted_abbrev_exit - parse_args always returns a
+   configuration: either normally or through the caught-ArgumentError warning branch.  Nothing else aborts. *)
+Theorem C11_no_abort : forall argv : list string,
+  ~ In "-i" argv -> exists a, parse_args argv = ROk a \/ parse_args argv = RWarned a.
+Proof. exact no_abort. Qed.
+Print Assumptions C11_no_abort.
 
 (* order: the scanner is a homomorphism at every point where no flag awaits its value (all argv) ... *)
 Theorem C11_order_S : forall l1 l2 : list string,
